@@ -426,7 +426,10 @@ func grammarTexts(c *ctx, r *rand.Rand, nValid, nMut, nRand int) []txt {
 			o.V = nil
 		}
 		o.ActionCode = func(id int) string {
-			return []string{fmt.Sprintf("p.n += %d", id), "if true { p.x() }", "/* } */ a := map[int]struct{}{}; _ = a", "s := \"\\\"\"; _ = s", ""}[(id+i)%5]
+			return []string{fmt.Sprintf("p.n += %d", id), "if true { p.x() }", "/* } */ a := map[int]struct{}{}; _ = a", "s := \"\\\"\"; _ = s", "",
+				// quotes inside rune literals and raw strings, with braces after them on the same line: braces are counted
+				// textually, whatever the Go lexer would make of the quotes
+				"if q := '\"'; len(text) > 0 { p.s = string(q) + text + \"\\\"\" }", "c, d := '\\'', '\"'; if c != d { p.n++ }", "s := `\"` + \"x\"; if len(s) > 1 { p.n++ }"}[(id+i)%8]
 		}
 		o.StateCode = func(id int) string { return fmt.Sprintf("p.k[%d]++", id) }
 		t := gram.PrintGrammar(g, o)
